@@ -657,6 +657,7 @@ func (se *SessionExecutor) handleKeepSessionPing() (err error) {
 			}
 			ksConn.Recycle()
 		}
+		se.ksConns = make(map[string]backend.PooledConnect)
 		return mysql.ErrBadConn
 	}
 
